@@ -16,6 +16,11 @@ THEOREMS = ["EngineModel.Properties.C05." + t for t in [
     "C05_uncompress_total", "C05_uncompress_no_ub", "C05_uncompress_old_end_counterexample", "C05_unz_safe",
     "C05_checked_arith_exact", "C05_v1_beat_encode_safe", "C05_missing_guard_overflows_counterexample",
     "C05_typed_arith_in_range",
+    "C05_decode_steps_shape_v2_cues", "C05_decode_steps_shape_v2_grid", "C05_decode_steps_shape_v2_beat",
+    "C05_decode_steps_shape_v1_cues", "C05_decode_steps_shape_v1_loops", "C05_decode_steps_shape_v1_grid",
+    "C05_decode_steps_shape_v1_beat", "C05_decode_steps_shape_v1_ovw", "C05_decode_steps_shape_v1_hires",
+    "C05_iteration_consumes", "C05_loop_consumes_exact", "C05_decode_reads_faithful", "C05_iteration_reads",
+    "C05_decode_reads",
 ]]
 ASSUMPTIONS = [
     "zlib is not modelled: the theorem about the decompression loops is generic in an inflate oracle that honours the "
